@@ -368,7 +368,7 @@ func r04_4send(c *Ctx, rule string) {
 			return false
 		}
 		r := in.(*ssa.Return)
-		if len(r.Results) == 1 && finCalls[x.SourceKey(r.Results[0], st)] {
+		if len(r.Results) == 1 && finCalls[unwrapKey(x.SourceKey(r.Results[0], st))] {
 			echo++
 			return false
 		}
@@ -1002,4 +1002,13 @@ func r04_11(c *Ctx, rule string) {
 		}
 	}
 	c.R.Floor(rule, "blocking primitive sites", n, 4)
+}
+
+// unwrapKey strips the nil-preserving error wrappers (errors.Wrap(err, ...) is
+// nil exactly when err is) from an explorer key.
+func unwrapKey(k string) string {
+	for strings.HasPrefix(k, "wrap(") && strings.HasSuffix(k, ")") {
+		k = k[len("wrap(") : len(k)-1]
+	}
+	return k
 }
